@@ -6,6 +6,7 @@ pub mod bitmap;
 pub mod mem;
 pub mod tear;
 pub mod stream;
+pub mod io;
 
 pub struct RunInfo {
     /// non-trivial by the scenario's stated rule
@@ -49,6 +50,8 @@ pub fn all_scenarios() -> Vec<&'static dyn Scenario> {
     v.push(&mem::MEM);
     v.push(&tear::TEAR);
     v.push(&stream::STREAM);
+    v.push(&io::IOMEM);
+    v.push(&io::IOFD);
     v
 }
 
@@ -111,6 +114,18 @@ pub fn checks() -> Vec<Check> {
         assumptions: COMMON_ASSUMPTIONS.to_vec(),
         real: vec!["vm_memory::io default loops and retry_eintr!, VolatileSlice / GuestRegionMmap / GuestMemory stream methods, try_access (compiled from /repo working tree)", "kernel mmap for regions"],
         stub: vec!["the stream endpoint: a scripted ReadVolatile/WriteVolatile implementation whose outcomes the tape decides"],
+        needs_seam_events: true,
+    });
+    v.push(Check {
+        prop: "C13",
+        parts: vec![
+            Part { scen: &io::IOMEM, xen: false, quick: 200_000, thorough: 8_000_000 },
+            Part { scen: &io::IOFD, xen: false, quick: 100_000, thorough: 3_000_000 },
+        ],
+        rule: "in-memory part: seeded histories of up to 12 consecutive calls (read/read_exact/write/write_all, cursor repositioning incl. past the end) on one adapter (&[u8], &mut [u8], Vec<u8>, Cursor<&[u8]>, Cursor<Vec<u8>>, Cursor<&mut [u8]>) compared call by call with a std::io twin; descriptor part: up to 12 calls on a File, UnixStream, OwnedFd pipe, BorrowedFd or Stdout whose every read(2)/write(2) outcome (pass, shortened, 0, EINTR, EAGAIN, EIO/EBADF/EFAULT/ENOSPC) the tape decides, compared with a POSIX byte-stream model; distinct = distinct event-log hash; non-trivial = at least one full and at least one short/failed/fault-injected call",
+        assumptions: COMMON_ASSUMPTIONS.to_vec(),
+        real: vec!["vm_memory::io adapters and default exact loops (compiled from /repo working tree)", "std::io twins", "kernel read/write on memfd files, pipes and socketpairs when the injector passes through"],
+        stub: vec!["injected read(2)/write(2) results at the H4 seam", "Stdout: an emulated sink (nothing is written to the real fd 1)", "TcpStream: not run (no loopback networking is assumed in the sandbox); it shares the raw-fd code path with UnixStream"],
         needs_seam_events: true,
     });
     v
